@@ -9,7 +9,8 @@ RULE = ("one case = one process on the MPI-enabled build (single rank, MPI_THREA
         "Isend/Irecv pairs (0 B - 1 MiB) through transform_mpi, receive and send started from different tasks with seeded "
         "delays, slow continuations on the operation that finishes last, a send to an invalid rank every 5th round, pika::wait() "
         "+ ledger after every round, stop_polling/start_polling every 7th round; all 32 completion modes x {polling on the default "
-        "pool, forced dedicated pool} x worker counts; variants: shutdown (finalize/stop with requests in flight), "
+        "pool, forced dedicated pool} x worker counts; variants: burst (48-100 receives pending together - the poller tests its "
+        "vector in chunks of 32 - sends following one at a time), shutdown (finalize/stop with requests in flight), "
         "MPI_ERRORS_RETURN without pika's handler; distinct = (configuration, mode, pool, variant, path-bit signature); non-trivial "
         "= callbacks run by a worker other than the one that tested the request, dedicated pool, shutdown variant or error "
         "operations observed")
@@ -33,6 +34,12 @@ def cases(tier, seed):
                 if rnd.random() < 0.25:
                     args.append("--perturb=off")
                 out.append(Case("mpi", "c20_mpi", args, cls="mode%d:pool%d" % (mode, pool), slots=w + 1, timeout=300))
+        # many requests pending at once (the poller tests its vector in chunks of 32): receives first, sends one at a time
+        for mode in ([30, 24, 8, 16, 27, 14, 21, 31] if not big else range(8, 32)):
+            n += 1
+            w = rnd.choice([4, 8])
+            out.append(Case("mpi", "c20_mpi", ["--threads=%d" % w, "--cmode=%d" % mode, "--rounds=%d" % (6 if not big else 20), "--pairs=%d" % rnd.choice([48, 72, 100]), "--burst=1",
+                                               "--pool=0", "--seed=%d" % (seed * 1000 + n)], cls="mode%d:burst" % mode, slots=w + 1, timeout=300))
         # a single worker: polling and continuations share it
         for mode in rnd.sample(range(32), 6 if not big else 16):
             n += 1
@@ -57,7 +64,7 @@ def run(tier, seed):
     outs = run_cases("C20", cases(tier, seed), attribute=ATTR)
     return finish("C20", tier, seed, t0, outs, RULE,
                   required_bits=["poller_used", "callback_by_other_worker", "error_operations", "polling_restarted", "shutdown_with_requests_in_flight",
-                                 "dedicated_pool"],
+                                 "dedicated_pool", "more_than_32_requests_pending"],
                   assumptions=["single rank: every transfer is self-addressed, so the network path of the MPI library is not exercised",
                                "the MPI library itself (Open MPI) is trusted to report completion correctly; it is not sanitizer-instrumented, so "
                                "this property has no TSan/ASan leg",
